@@ -82,11 +82,14 @@ async fn handle_http_proxy_connection(
         session
             .write_data_frame(proxy_stream.id(), Bytes::from(request_bytes))
             .await?;
-        if !request.body.is_empty() {
-            session
-                .write_data_frame(proxy_stream.id(), Bytes::from(request.body.clone()))
-                .await?;
-        }
+    }
+
+    // Bytes that arrived together with the header (a request body prefix, or data a client
+    // pipelined right behind CONNECT) belong to the tunnel: forward them before anything else
+    if !request.body.is_empty() {
+        session
+            .write_data_frame(proxy_stream.id(), Bytes::from(request.body.clone()))
+            .await?;
     }
 
     let (mut client_read, mut client_write) = tokio::io::split(client_conn);
